@@ -3,6 +3,10 @@
 import json, sys
 pid, wt = sys.argv[1], sys.argv[2]
 n = int(sys.argv[3]) if len(sys.argv) > 3 else 2
+style = sys.argv[4] if len(sys.argv) > 4 else "a"
+STYLE_B = """
+STYLE FOR THIS ROUND (important): an earlier round already produced plain index/sign/condition slips in the obvious functions. This time prefer changes whose effect depends on HISTORY or on the FORM of the input rather than on its value: a cache or memo that is not invalidated (per instance or module level), an attribute or argument array that is aliased and later written in place, state left behind by a previous call (a second call, a second model instance, a call after another entry point was used), behaviour that differs by container type or dtype (list vs tuple vs ndarray, int vs float arrays, numpy scalar vs Python scalar, 0-d arrays), boundary values (zero rates, a time exactly on a grid point, an empty or one-element list, a single state or single parameter), rarely used option combinations and secondary entry points of the property (the less obvious functions named under 'Observable at' / 'Code involved'), or two cooperating edits in different files. Keep it realistic: something a maintainer could plausibly commit as an optimisation, clean-up or robustness tweak.
+"""
 p = [json.loads(l) for l in open('/verif/properties.jsonl') if json.loads(l)['id'] == pid][0]
 print(f"""You are a software engineer testing a verification tool. Your job: craft {n} DIFFERENT realistic source changes ("seeded bugs") to the Python library pygom, each of which BREAKS the semantic property below while the library still imports and its existing test suite still passes. You work ONLY inside your own scratch git worktree of the repository at {wt} (already created; the compiled extension _tau_leap*.so has been copied in). Do NOT read or touch anything under /verif, do NOT modify /repo, do not create other worktrees. No network.
 
@@ -20,4 +24,5 @@ WHAT MAKES A GOOD CHANGE
   (about 6-10 minutes for the full suite; run relevant test files first while iterating, then the FULL suite once per final change and report the pass/fail counts; on the unmodified worktree the full suite gives 55 passed, 5 skipped). A change that makes any test fail is not acceptable.
 * Provide for each change a small stand-alone demonstration script demo.py (uses only pygom/numpy/scipy/sympy, runs in < 60 s with `PYTHONPATH=<tree>/src /venv/bin/python demo.py`, exits 0 when the property holds on the scenario it checks and exits 1 printing what went wrong when it does not). It must exit 1 with your change applied and exit 0 on the unmodified tree (`git stash` / `git checkout -- .` to compare). Tips for writing demos: build models with `from pygom import SimulateOde, Transition, Event`; evaluators compile via cython by default which takes seconds per evaluator - set `model._SC = pygom.model.ode_utils.compileCode(backend='lambda')` right after construction for speed; set parameters with `model.parameters = [...]`; for stochastic runs use `model.initial_values = (numpy.array(x0), numpy.float64(0))`.
 
+{STYLE_B if style == "b" else ""}
 DELIVERABLES: create the directory {wt}/SEEDED/ and in it, for k = 1..{n}: `change{{k}}.diff` (output of `git diff` for that change alone, relative to the unmodified worktree HEAD), `demo{{k}}.py`, and `meta{{k}}.json` with keys: property, summary (one sentence), needs_to_manifest (what specific input/sequence/shape is required), files_touched, tests_run (command and result counts), demo_result_with_change, demo_result_without_change. Leave the worktree source UNMODIFIED at the end (`git checkout -- .`), with only the SEEDED/ directory added. Your final message: a short table of the {n} changes (summary, what it needs to manifest, test results, demo results).""")
